@@ -145,7 +145,13 @@ func AppendFloat(b []byte, f float64, prec int) []byte {
 		prec = 17 // maximum number of significant digits in double
 	}
 	prec -= float64exp(f) // number of digits in front of the dot
-	f *= math.Pow10(prec)
+	if 308 < prec {
+		// math.Pow10 overflows above 308, scale in two steps
+		f *= math.Pow10(308)
+		f *= math.Pow10(prec - 308)
+	} else {
+		f *= math.Pow10(prec)
+	}
 
 	// calculate mantissa and exponent
 	mant := int64(f)
